@@ -6,6 +6,7 @@ import (
 	"go/token"
 	"go/types"
 	"math/big"
+	"os"
 	"sort"
 	"strings"
 
@@ -81,6 +82,9 @@ func (g *Gen) emitAxioms(skipLemma string) {
 func (g *Gen) Run() (err error) {
 	defer func() {
 		if r := recover(); r != nil {
+			if os.Getenv("GOVC_PANIC") != "" {
+				panic(r)
+			}
 			switch e := r.(type) {
 			case unsupportedErr:
 				err = fmt.Errorf("%s: outside the verified subset: %s", g.unit, string(e))
@@ -92,6 +96,10 @@ func (g *Gen) Run() (err error) {
 		}
 	}()
 	fn := g.fn
+	curPkgName = ""
+	if bp := g.baseEnv().pkg; bp != nil {
+		curPkgName = bp.Name()
+	}
 	g.emitAxioms("")
 	// parameters
 	g.params = map[string]Val{}
@@ -192,7 +200,8 @@ func (g *Gen) typeFacts(guard string, v Val) {
 			max := bvConst(new(big.Int).Lsh(big.NewInt(1), 48), 64)
 			g.assume(guard, and(g.idxLe(v.Cap, max), g.idxLe(v.Off, max)))
 		} else {
-			g.assume(guard, "(<= "+v.Cap+" 9223372036854775807)")
+			// no slice is longer than 2^56 elements (far beyond any address space)
+			g.assume(guard, "(<= "+v.Cap+" 72057594037927936)")
 		}
 	case kStruct:
 		for _, f := range v.Fs {
@@ -504,6 +513,32 @@ func (g *Gen) resolveLocal(name string, at *ssa.BasicBlock, h *Heap) (Val, bool)
 	return v, true
 }
 
+// tryEval evaluates e; an unknown name is reported as !ok (events emitted meanwhile are rolled back).
+func (g *Gen) tryEval(e Expr, env *Env) (v Val, ok bool) {
+	n := len(g.events)
+	decl := make(map[string]bool, len(g.declared))
+	for k, v := range g.declared {
+		decl[k] = v
+	}
+	nstr := len(g.strOrder)
+	defer func() {
+		if r := recover(); r != nil {
+			if ce, isCE := r.(contractError); isCE && strings.Contains(string(ce), "unknown name") {
+				g.events = g.events[:n]
+				g.declared = decl
+				for _, s := range g.strOrder[nstr:] {
+					delete(g.strConsts, s)
+				}
+				g.strOrder = g.strOrder[:nstr]
+				ok = false
+				return
+			}
+			panic(r)
+		}
+	}()
+	return g.eval(e, env), true
+}
+
 func (g *Gen) instrIndex(in ssa.Instruction) int {
 	for i, x := range in.Block().Instrs {
 		if x == in {
@@ -519,6 +554,17 @@ func (g *Gen) localEnv() *Env {
 	env := g.baseEnv()
 	for k, v := range g.params {
 		env.vars[k] = v
+	}
+	// a ghost is visible where its defining point dominates (the innermost such definition wins)
+	best := map[string]*ssa.BasicBlock{}
+	for _, d := range g.ghostDefs {
+		if g.curBlock == nil || !(d.block == g.curBlock || d.block.Dominates(g.curBlock)) {
+			continue
+		}
+		if b, ok := best[d.name]; !ok || b.Dominates(d.block) {
+			best[d.name] = d.block
+			env.vars[d.name] = d.val
+		}
 	}
 	env.heap = g.heap
 	env.old = g.heap0
@@ -802,10 +848,37 @@ func constInt(v ssa.Value) *big.Int {
 // ---------- instructions ----------
 
 func (g *Gen) execInstr(in ssa.Instruction) {
-	if len(g.pendingAsserts) > 0 {
+	if len(g.pendingAsserts) > 0 || len(g.pendingGhosts) > 0 {
 		switch in.(type) {
 		case *ssa.DebugRef, *ssa.Extract, *ssa.Store:
 		default:
+			pg := g.pendingGhosts
+			g.pendingGhosts = nil
+			for _, c := range pg {
+				if g.ghostVals == nil {
+					g.ghostVals = map[string]Val{}
+				}
+				v, ok := g.tryEval(c.Expr, g.localEnv())
+				if !ok {
+					// a name it mentions is not bound yet (its first reference comes later): try again at the next
+					// instruction; the block's terminator is the last chance
+					switch in.(type) {
+					case *ssa.If, *ssa.Jump, *ssa.Return, *ssa.Panic:
+						g.eval(c.Expr, g.localEnv()) // raises the contract error
+					}
+					g.pendingGhosts = append(g.pendingGhosts, c)
+					continue
+				}
+				if v.K == kUntyped {
+					v = g.coerce(v, intT)
+				}
+				g.ghostVals[c.Name] = v
+				g.ghostDefs = append(g.ghostDefs, ghostDef{c.Name, g.curBlock, v})
+			}
+			if len(g.pendingGhosts) > 0 {
+				// assertions may depend on the ghosts: keep them pending as well
+				break
+			}
 			pa := g.pendingAsserts
 			g.pendingAsserts = nil
 			env := g.localEnv()
@@ -1113,6 +1186,11 @@ func (g *Gen) unop(x *ssa.UnOp) Val {
 	a := g.val(x.X)
 	switch x.Op {
 	case token.MUL:
+		if gl, ok := x.X.(*ssa.Global); ok {
+			if v, ok := g.globalConstant(gl); ok {
+				return v
+			}
+		}
 		if a.K == kScalar {
 			g.nilCheck(a.S, x.Pos(), x.X)
 		}
@@ -1141,6 +1219,31 @@ func (g *Gen) unop(x *ssa.UnOp) Val {
 		panic(unsupported("channel receive"))
 	}
 	panic(unsupported("unary %s", x.Op))
+}
+
+// globalConstant: value of a package-level string / []byte variable that is never reassigned (see World.globalInit).
+func (g *Gen) globalConstant(gl *ssa.Global) (Val, bool) {
+	lit, ok := g.w.globalInit(gl)
+	if !ok {
+		return Val{}, false
+	}
+	t := gl.Type().Underlying().(*types.Pointer).Elem()
+	g.addAssumption("package variable " + gl.Name() + " is only assigned by its initialiser (checked by scanning every store in the program); treated as the constant " + fmt.Sprintf("%q", lit))
+	if isString(t) {
+		return sv(t, g.strConst(lit)), true
+	}
+	if isByteSlice(t) {
+		ref := g.globalRef(gl.Pkg.Pkg.Path() + "." + gl.Name() + "#data")
+		hs := g.heapSort(g.byteSort(), 2)
+		eh := g.heapGet(g.heap, "[]uint8", hs)
+		for i := 0; i < len(lit) && i < 64; i++ {
+			g.assume("true", eq(sel(eh, ref, g.idxConst(int64(i))), g.byteConst(lit[i])))
+		}
+		z := g.idxConst(0)
+		n := g.idxConst(int64(len(lit)))
+		return Val{K: kSlice, T: t, Arr: ref, Off: z, Len: n, Cap: n}, true
+	}
+	return Val{}, false
 }
 
 // loadFacts: a value read from the heap satisfies its type's representation invariant.
